@@ -11,10 +11,11 @@ from ..runner import Violation, hyp_search, sha
 ID = "C02"
 LEVEL = "exploration"
 RULE = (
-    "Hypothesis-constructed call-heavy programs x option vectors over the 8 booleans (quick: default + all-true + "
+    "Hypothesis-constructed call-heavy programs (1 in 6 split over library modules) x option vectors over the 8 booleans (quick: default + all-true + "
     "all-false + 10 drawn vectors per program; thorough: 42 vectors per program plus all 256 vectors on a further 8 programs per shard); oracle: "
     "the effect trace of the emitted IC10 on the reference machine under each vector equals the trace under the "
-    "default vector (same generated device environment); second arm: the vector given through a '# pytrapic:' line "
+    "default vector (same generated device environment) and no vector is rejected for another reason than register "
+    "exhaustion; second arm: the vector given through a '# pytrapic:' line "
     "with API defaults must give textually identical code to the API arm. Non-trivial: >= 2 textually different "
     "outputs among the vectors, >= 1 non-inlined call executed in one of them, >= 3 effects; distinct by SHA-1 of "
     "(source, environment seed)."
@@ -60,7 +61,7 @@ def run_code(code, es, pool, K):
 def check_case(case, stats=None, K=oracle.K_QUICK):
     srcs = case["src"]
     main = srcs[""]
-    safe = tco_safe(main)
+    safe = tco_safe(main) and not case.get("no_tco")
     base = oracle.compile_case(srcs, {})
     if "error" in base:
         if stats is not None:
@@ -87,8 +88,14 @@ def check_case(case, stats=None, K=oracle.K_QUICK):
         if stats is not None:
             stats.evaluations += 1
         if "error" in res:
+            desc = res["error"]["description"]
+            if "out of registers" not in desc:
+                # the default vector accepted this program: an option may cost registers but must not make
+                # the program unacceptable for any other reason
+                raise Violation("C02:option-changes-acceptance:" + oracle.error_class(desc),
+                                {"opts": ov, "error": desc[:400], "code_default": base["code"]})
             if stats is not None:
-                stats.discarded["reject:" + ("registers" if "out of registers" in res["error"]["description"] else oracle.norm_error(res["error"]["description"]))] += 1
+                stats.discarded["reject:registers"] += 1
             continue
         detail = {"opts": ov, "env_seed": es, "code_default": base["code"], "code": res["code"]}
         try:
@@ -142,7 +149,13 @@ def check_case(case, stats=None, K=oracle.K_QUICK):
 def cases(draw, nvec, all256=False):
     cfg = programs.Cfg(call_bias=25, tail_call_bias=40, max_funcs=4, max_params=3, d5_args=draw(st.booleans()),
                        nested_arg_pct=draw(st.sampled_from([20, 70])))
-    if draw(st.integers(0, 4)) == 0:
+    k = draw(st.integers(0, 5))
+    if k == 5:
+        # programs split over library modules (source comments must come from the right file, labels are qualified)
+        from . import c13
+        mc = draw(c13.cases())
+        c = {"src": c13.render(mc)[0], "env_seeds": mc["env_seeds"], "pool": compare.DEFAULT_POOL, "features": ["library-modules"], "no_tco": True}
+    elif k == 0:
         from ..gen import callgraph
         c = draw(callgraph.tailcall_cases(nenv=1))
     else:
